@@ -4,7 +4,7 @@
 From Coq Require Import String List NArith ZArith Bool.
 From Coq Require Import Strings.Byte.
 From Flocq Require Import Core IEEE754.BinarySingleNaN.
-From GoBT Require Import lib.Bytes lib.Hex lib.Parse lib.VarInt lib.Sha256 model.Tx model.Amount model.Json model.JsonScripts corr.Corr.
+From GoBT Require Import lib.Bytes lib.Hex lib.Parse lib.VarInt lib.Sha256 model.Tx model.Amount model.Json model.JsonScripts model.JsonHeap corr.Corr.
 Import ListNotations.
 Local Open Scope N_scope.
 
@@ -32,7 +32,45 @@ Inductive case :=
 (** what the node document says about one script: asm / reqSigs / type of an output carrying it, asm of an input
     carrying it as unlocking script - against bscript's inspection code as modelled (model/JsonScripts.v
     [script_info_bscript]: the instance the "any script" theorems of Properties/C16.v are about) *)
-| CNodeScript (s : bytes) (asm : string) (reqsigs : N) (type : string) (in_asm : string).
+| CNodeScript (s : bytes) (asm : string) (reqsigs : N) (type : string) (in_asm : string)
+(** a list of UTXOs (round 8: repeated and near-identical elements): what each dialect's list read back *)
+| CUtxos (us : list gutxo) (lib_back node_back : list utxo_j)
+(** a transaction of 64 KiB and more (round 8). [g] is written with generator expressions ([lcg_bytes], [big_outs],
+    [big_ins]) for its big parts; of the documents only digests are observed: the library document's txid, the length
+    of its hex string and the SHA-256 of the bytes it encodes, the SHA-256 over the scripts its inputs and outputs list
+    and their counts, the node document's txid and size, and the SHA-256 of the serialisation of what each of the three
+    documents (library, node, node without "hex") unmarshals to. *)
+| CBig (g : gtx) (lib_txid : string) (lib_hex_len : N) (lib_hex_sha lib_scripts_sha : string) (n_ins n_outs : N)
+       (node_txid : string) (node_size : N) (lib_back_sha node_back_sha node_fields_back_sha : string)
+(** a list of UTXOs marshalled and unmarshalled into a destination WITH A PAST (round 8; model/JsonHeap.v): the heap
+    before (buffers, UTXO objects referring to them), the destination's backing array (object addresses; nil and
+    repeated pointers allowed), the list marshalled; observed: the fields of the elements of the destination afterwards,
+    and of EVERY object of the heap afterwards (reused or not).  [node]: through utxos.NodeJSON(). *)
+| CInto (node : bool) (bufs : list bytes) (objs : list uobj) (backing : list (option nat)) (src : list gutxo)
+        (result objs_after : list utxo_j).
+
+(** the generators of harness/cmd/c16/round8.go: x' = (1103515245 x + 12345) mod 2^31, byte = x' / 2^16 mod 256 *)
+Fixpoint lcg_go (n : nat) (x : N) : bytes :=
+  match n with
+  | O => []
+  | S k => let x' := (x * 1103515245 + 12345) mod 2147483648 in n2b (x' / 65536) :: lcg_go k x'
+  end.
+Definition lcg_bytes (seed n : N) : bytes := lcg_go (N.to_nat n) (seed mod 2147483648).
+(** [big_outs seed k]: output i pays i satoshis to the P2PKH script of the hash lcg_bytes (seed+i) 20 *)
+Fixpoint big_outs_go (k : nat) (seed i : N) : list goutput :=
+  match k with
+  | O => []
+  | S k' => mkGOutput i (Some ([x76; xa9; x14] ++ lcg_bytes (seed + i) 20 ++ [x88; xac])) :: big_outs_go k' seed (N.succ i)
+  end.
+Definition big_outs (seed k : N) : list goutput := big_outs_go (N.to_nat k) seed 0.
+(** [big_ins seed k]: input i spends output i of the txid lcg_bytes (seed+i) 32; even ones carry an empty unlocking
+    script, odd ones none yet *)
+Fixpoint big_ins_go (k : nat) (seed i : N) : list ginput :=
+  match k with
+  | O => []
+  | S k' => mkGInput (lcg_bytes (seed + i) 32) i (if N.even i then Some [] else None) 4294967295 0 None :: big_ins_go k' seed (N.succ i)
+  end.
+Definition big_ins (seed k : N) : list ginput := big_ins_go (N.to_nat k) seed 0.
 
 Definition trivial_info (_ : bytes) : jres (string * N * string) := JOk (EmptyString, 0, EmptyString).
 
@@ -108,6 +146,17 @@ Definition no_hex (j : node_tx_j) : node_tx_j :=
 Definition utxo_fields (u : gutxo) : utxo_j :=
   mkUtxoJ (hex_of (u_txid u)) (u_vout u) (script_string (u_lock u)) (u_sats u).
 
+Definition jres_sha_is (r : jres gtx) (h : string) : bool :=
+  match r with
+  | JOk g => match gtx_bytes g with JOk b => sha_is b h | _ => false end
+  | _ => false
+  end.
+Definition hex_sha_is (s h : string) : bool := match hexdecode s with Some b => sha_is b h | None => false end.
+(** the scripts a library document lists: inputs' unlocking scripts, then outputs' locking scripts *)
+Definition doc_scripts (j : tx_j) : bytes :=
+  List.concat (map (fun i => match i with Some i' => unhex (ij_unlock i') | None => [] end) (tj_ins j)) ++
+  List.concat (map (fun o => match o with Some o' => unhex (oj_lock o') | None => [] end) (tj_outs j)).
+
 Definition check (c : case) : bool :=
   match c with
   | CAmtRange start count sha => sha_is (amt_range (N.to_nat count) start) sha
@@ -159,6 +208,37 @@ Definition check (c : case) : bool :=
               String.eqb (spk_hex spk) (hex_of s) && String.eqb (ss_asm ss) in_asm && String.eqb (ss_hex ss) (hex_of s)
           | _, _ => false
           end
+      | _ => false
+      end
+  | CUtxos us lib_back node_back =>
+      match marshal_utxos us, node_marshal_utxos us with
+      | JOk js, JOk njs =>
+          match unmarshal_utxos js, node_unmarshal_utxos njs with
+          | JOk a, JOk b => list_eqb utxo_j_eqb (map utxo_fields a) lib_back && list_eqb utxo_j_eqb (map utxo_fields b) node_back
+          | _, _ => false
+          end
+      | _, _ => false
+      end
+  | CBig g ltxid hexlen hexsha scriptsha nins nouts ntxid nsize lsha nsha nfsha =>
+      match marshal_tx g, node_marshal_tx trivial_info g with
+      | JOk j, JOk nj =>
+          String.eqb (tj_txid j) ltxid && (N.of_nat (String.length (tj_hex j)) =? hexlen) && hex_sha_is (tj_hex j) hexsha &&
+          sha_is (doc_scripts j) scriptsha && (N.of_nat (List.length (tj_ins j)) =? nins) && (N.of_nat (List.length (tj_outs j)) =? nouts) &&
+          String.eqb (nt_txid nj) ntxid && (nt_size nj =? nsize) && String.eqb (nt_hex nj) (tj_hex j) &&
+          jres_sha_is (unmarshal_tx (mkGTx 0 [] [] 0) j) lsha &&
+          jres_sha_is (node_unmarshal_tx new_tx nj) nsha &&
+          jres_sha_is (node_unmarshal_tx new_tx (no_hex nj)) nfsha
+      | _, _ => false
+      end
+  | CInto node bufs objs backing src result objs_after =>
+      let h := mkHeap bufs objs in
+      let r := if node
+               then jbind (node_marshal_utxos src) (node_unmarshal_utxos_into h backing)
+               else jbind (marshal_utxos src) (unmarshal_utxos_into h backing) in
+      match r with
+      | JOk (h', l) =>
+          list_eqb utxo_j_eqb (map (fun a => utxo_fields (view h' a)) l) result &&
+          list_eqb utxo_j_eqb (map (fun a => utxo_fields (view h' a)) (seq 0 (List.length objs))) objs_after
       | _ => false
       end
   end.
